@@ -140,7 +140,9 @@ func direct(w *World, fi int, path, cookie string) (resp *envoy.CheckResponse, p
 			panicked = p
 		}
 	}()
-	resp, _ = w.dispatch(context.Background(), fi, mkRequest("https", f.Spec.AppHost, path, hdr))
+	// the task identity travels in the request context (see World.taskOf)
+	ctx := context.WithValue(context.Background(), taskKey{}, w.Sim.Cur())
+	resp, _ = w.dispatch(ctx, fi, mkRequest("https", f.Spec.AppHost, path, hdr))
 	return resp, nil
 }
 
